@@ -86,10 +86,11 @@ def render_args() -> dict:
 
 _ADDR = re.compile(r"0x[0-9a-fA-F]+")
 _TMPROOT = re.compile(r"/(?:dev/shm|tmp)/verif-[^/\s]+")
+_HEX32 = re.compile(r"[0-9a-f]{32}")
 
 
 def norm_msg(s: str) -> str:
-    return _TMPROOT.sub("<root>", _ADDR.sub("0x?", s))[:1500]
+    return _HEX32.sub("H", _TMPROOT.sub("<root>", _ADDR.sub("0x?", s)))[:1500]
 
 
 def outcome_of_exc(e: BaseException) -> list:
